@@ -1445,6 +1445,11 @@ impl Engine for Tsim {
         vec!["C10"]
     }
 
+    fn hang_is_violation(prop: &str) -> bool {
+        // these properties promise that calls complete (never deadlock / always complete / instead of hanging)
+        matches!(prop, "C10")
+    }
+
     fn rule(_prop: &str) -> String {
         "case = managed or unmanaged pool, runtime present (paused tokio clock) or absent, max_size 1..=3, pool-level and per-call wait / create / recycle timeouts in {none, zero, 10..50 ms}, scripted create / recycle outcomes (ok / error / gated / never) and a history of get / advance / open-gate / return / close steps; every woken future is polled after every step and Advance stops at every pending deadline; distinct by hash of the whole case. Non-trivial: a deadline expired or a completion (gate opened, slot freed) happened within 1 ms of a pending deadline, or a call or build with a non-zero timeout was made without a runtime".into()
     }
